@@ -7,7 +7,8 @@
           if idx_start < 0: return
           try:                                               -- `tryBody`
               matched = True
-              if filter_expr: info-only decode; matched = sr.run(msg); full decode when matched and not info_only
+              if filter_expr: info-only decode; matched = sr.run(msg); full decode when not info_only and
+                              (matched or the message is a table definition message)      -- repair F25
               else:           decode(info_only)
               if info_only: msg.serialized_bytes = s[idx_start : idx_start + msg.length.value]
               else:         (table-definition side effect, abstracted away: C20)
@@ -64,6 +65,10 @@ structure Cfg (μ : Type) where
   continueOnError : Bool := false
   /-- `filter_expr`: truthiness of `ScriptRunner(filter_expr, mode='eval').run(msg)` -/
   filter : Option (MsgInfo μ → Except Err Bool) := none
+  /-- is the message a table definition message (`data_category == DATA_CATEGORY_DEFINE_BUFR_TABLES and
+      n_subsets > 0`, read off the decode in hand)?  After the repair F25 such a message is decoded in full
+      even when the filter rejects it, because the definitions it carries govern the messages that follow (C20). -/
+  tableDef : MsgInfo μ → Bool := fun _ => false
 
 structure Item (μ : Type) where
   offset : Nat
@@ -91,10 +96,10 @@ def decodeHere {μ : Type} (dec : Dec μ) (cfg : Cfg μ) (rest : Bytes) : Except
       match p mi with
       | .error e => .error e
       | .ok matched =>
-        if matched && !cfg.infoOnly then
+        if (matched || cfg.tableDef mi) && !cfg.infoOnly then
           match dec false rest with
           | .error e => .error e
-          | .ok m => .ok (true, m)
+          | .ok m => .ok (matched, m)
         else .ok (matched, mi)
 
 /-- the body of the `try`: how far to advance and what is yielded -/
